@@ -390,8 +390,17 @@ pub fn build_instance(scn: &Value) -> Result<Built, String> {
             k => json!({"type": "factor", "factor": k as f64}),
         }
     };
-    let real_weights = json!({"distance": jf(&scn["wd"]), "time": jf(&scn["wt"])});
-    let real_rates = json!({"distance": rate_json(ji(&scn["rd"])), "time": rate_json(ji(&scn["rt"]))});
+    let mut real_weights = json!({"distance": jf(&scn["wd"]), "time": jf(&scn["wt"])});
+    let mut real_rates = json!({"distance": rate_json(ji(&scn["rd"])), "time": rate_json(ji(&scn["rt"]))});
+    // a feature that does not count may be left out of the mappings altogether instead of being weighted zero
+    if scn["omit_zero"].as_bool().unwrap_or(false) {
+        for (k, w) in [("distance", "wd"), ("time", "wt")] {
+            if jf(&scn[w]) == 0.0 {
+                real_weights.as_object_mut().unwrap().remove(k);
+                real_rates.as_object_mut().unwrap().remove(k);
+            }
+        }
+    }
     let mut cost_cfg = json!({"cost_aggregation": "sum"});
     let mut cost_query = json!({});
     if from_query {
@@ -436,13 +445,20 @@ pub fn build_instance(scn: &Value) -> Result<Built, String> {
     }
     if let Some(bad) = scn["bad"].as_array() {
         if !bad.is_empty() || scn["force_turn_model"].as_bool().unwrap_or(false) {
-            let path = dir.join("turn_restrictions.csv");
-            let mut txt = String::from("prev_edge_id,next_edge_id\n");
-            for p in bad {
-                txt.push_str(&format!("{},{}\n", ju(&p[0]) - 1, ju(&p[1]) - 1));
+            // one table, or (split_models) the same restrictions spread over two tables: two models of the same type in
+            // the combination, each of which must permit the turn
+            let parts = if scn["split_models"].as_bool().unwrap_or(false) { 2 } else { 1 };
+            for part in 0..parts {
+                let path = dir.join(format!("turn_restrictions{}.csv", part));
+                let mut txt = String::from("prev_edge_id,next_edge_id\n");
+                for (i, p) in bad.iter().enumerate() {
+                    if i % parts == part {
+                        txt.push_str(&format!("{},{}\n", ju(&p[0]) - 1, ju(&p[1]) - 1));
+                    }
+                }
+                std::fs::write(&path, txt).unwrap();
+                models.push(json!({"type": "turn_restriction", "turn_restriction_input_file": path.to_str().unwrap()}));
             }
-            std::fs::write(&path, txt).unwrap();
-            models.push(json!({"type": "turn_restriction", "turn_restriction_input_file": path.to_str().unwrap()}));
         }
     }
     if scn["veh_on"].as_bool().unwrap_or(false) {
@@ -461,11 +477,19 @@ pub fn build_instance(scn: &Value) -> Result<Built, String> {
             "by_kind" => rows.sort_by(|a, b| a.2.split(',').nth(1).cmp(&b.2.split(',').nth(1))),
             _ => {}
         }
-        for r in &rows {
-            txt.push_str(&r.2);
+        let parts = if scn["split_models"].as_bool().unwrap_or(false) { 2 } else { 1 };
+        for part in 0..parts {
+            let mut t = txt.clone();
+            for (i, r) in rows.iter().enumerate() {
+                if i % parts == part {
+                    t.push_str(&r.2);
+                }
+            }
+            let path = dir.join(format!("vehicle_restrictions{}.csv", part));
+            std::fs::write(&path, t).unwrap();
+            models.push(json!({"type": "vehicle_restriction", "vehicle_restriction_input_file": path.to_str().unwrap()}));
         }
-        std::fs::write(&path, txt).unwrap();
-        models.push(json!({"type": "vehicle_restriction", "vehicle_restriction_input_file": path.to_str().unwrap()}));
+        let _ = path;
         query["vehicle_parameters"] = scn["veh"].clone();
     }
     let registry: HashMap<String, Rc<dyn FrontierModelBuilder>> = HashMap::from([
@@ -981,6 +1005,8 @@ pub fn gen_scenario(r: &mut StdRng, o: &GenOpts) -> Value {
         scn["bad"] = json!(bad);
         scn["force_turn_model"] = json!(true);
     }
+    scn["split_models"] = json!(r.gen_bool(0.35));
+    scn["omit_zero"] = json!(r.gen_bool(0.5));
     scn["veh_on"] = json!(false);
     scn["vrestr"] = json!(vec![json!([]); ne]);
     scn["veh"] = json!({"height": [3, "meters"], "width": [8, "feet"], "total_length": [400, "inches"],
